@@ -942,6 +942,9 @@ func (r *resolver) expandAugment(y *Augment, parent Meta) error {
 	}
 
 	for _, orig := range y.Actions() {
+		if _, allowed := target.(HasActions); !allowed {
+			return fmt.Errorf("%s - cannot add action %s, %s does not allow actions", SchemaPath(y), orig.Ident(), y.ident)
+		}
 		d := orig.clone(target).(Definition)
 		if err := target.(HasActions).addAction(d.(*Rpc)); err != nil {
 			return err
@@ -952,6 +955,9 @@ func (r *resolver) expandAugment(y *Augment, parent Meta) error {
 	}
 
 	for _, orig := range y.Notifications() {
+		if _, allowed := target.(HasNotifications); !allowed {
+			return fmt.Errorf("%s - cannot add notification %s, %s does not allow notifications", SchemaPath(y), orig.Ident(), y.ident)
+		}
 		d := orig.clone(target).(Definition)
 		if err := target.(HasNotifications).addNotification(d.(*Notification)); err != nil {
 			return err
